@@ -33,13 +33,13 @@ class FusedMatMulDiv1(orp.RewriteRuleClassBase):
         if cst.const_value is None:
             return check_result.fail("Divisor is not a constant value.")
         value = cst.const_value.numpy()
-        if value.size > 1:
+        if value.size != 1 or value.ndim > 1:
             return check_result.fail("Divisor is not a scalar value.")
         return check_result
 
     def rewrite(self, op, x, y, cst):
         value = cst.const_value.numpy()
-        c = float(value[0] if value.shape == (1,) else value)
+        c = float(value.reshape(-1)[0])
         return op.FusedMatMul(x, y, alpha=1 / c, _domain="com.microsoft")
 
 
@@ -53,13 +53,14 @@ class FusedMatMulDiv2(orp.RewriteRuleClassBase):
         check_result = orp.MatchResult()
         if cst.const_value is None:
             return check_result.fail("Divisor is not a constant value.")
-        if cst.const_value.numpy().size > 1:
+        value = cst.const_value.numpy()
+        if value.size != 1 or value.ndim > 1:
             return check_result.fail("Divisor is not a scalar value.")
         return check_result
 
     def rewrite(self, op, x, y, cst, fused: ir.Value):
         value = cst.const_value.numpy()
-        c = float(value[0] if value.shape == (1,) else value)
+        c = float(value.reshape(-1)[0])
         fused_node = _get_node(fused, "FusedMatMul")
         kwargs = _get_kwargs(fused_node)
         kwargs["alpha"] = kwargs.get("alpha", 1.0) / c
